@@ -25,7 +25,6 @@ import (
 	"github.com/sassoftware/relic/v8/lib/signxap"
 	"github.com/sassoftware/relic/v8/signers"
 	"github.com/sassoftware/relic/v8/signers/pecoff"
-	"github.com/sassoftware/relic/v8/signers/zipbased"
 )
 
 // Sign Silverlight / legacy Windows Phone apps
@@ -34,7 +33,7 @@ var XapSigner = &signers.Signer{
 	Name:      "xap",
 	Magic:     magic.FileTypeXAP,
 	CertTypes: signers.CertTypeX509,
-	Transform: zipbased.Transform,
+	Transform: transform,
 	Sign:      sign,
 	Verify:    verify,
 }
@@ -42,6 +41,28 @@ var XapSigner = &signers.Signer{
 func init() {
 	pecoff.AddOpusFlags(XapSigner)
 	signers.Register(XapSigner)
+}
+
+type xapTransformer struct {
+	f *os.File
+}
+
+func transform(f *os.File, opts signers.SignOpts) (signers.Transformer, error) {
+	return &xapTransformer{f}, nil
+}
+
+// Like the zip transform, but an already-signed XAP has a signature trailer
+// after the end of the zip
+func (t *xapTransformer) GetReader() (io.Reader, error) {
+	r, w := io.Pipe()
+	go func() {
+		_ = w.CloseWithError(signxap.XapToTar(t.f, w))
+	}()
+	return r, nil
+}
+
+func (t *xapTransformer) Apply(dest, mimeType string, result io.Reader) error {
+	return signers.ApplyBinPatch(t.f, dest, result)
 }
 
 func sign(r io.Reader, cert *certloader.Certificate, opts signers.SignOpts) ([]byte, error) {
